@@ -52,7 +52,7 @@ func runC17(cx *Ctx, r *Report) {
 				for i := 0; i+1 < len(st.Args); i += 2 {
 					f[st.Args[i].Name] = st.Args[i+1].LooseString()
 				}
-				_, dup := set[0].fact(false, "oracle/keeper.Keeper.GetFeed(keeper, msg.FeedName)#1")
+				dup := cx.absenceFact(set[0].w.FactsAt(set[0].ev.Fr, set[0].ev.Site), "oracle:PrefixFeedKey=0x01", "msg.FeedName")
 				ok = f["Creator"] == "msg.Creator" && f["FeedName"] == "msg.FeedName" && f["AggregateFunc"] == "msg.AggregateFunc" && f["ValueJsonPath"] == "msg.ValueJsonPath" && f["LatestHistory"] == "msg.LatestHistory" && dup &&
 					strings.Contains(f["RequestContextID"], "ServiceKeeper.CreateRequestContext(")
 			}
